@@ -192,7 +192,7 @@ fn c11_exec(scratch: &Scratch, tpl: &CatTemplate, tasks: &[Vec<ServerCommand>], 
     let prefix2 = prefix.to_vec();
     let r = node.try_block_on(async move {
         use tokio::io::AsyncReadExt;
-        let listener = tokio::net::TcpListener::bind("127.0.0.1:0").await.map_err(|e| e.to_string())?;
+        let listener = tokio::net::TcpListener::bind(format!("{}:0", crate::node::next_loopback())).await.map_err(|e| e.to_string())?;
         let addr = listener.local_addr().unwrap();
         let mut handles = Vec::new();
         let mut clients: Vec<(usize, tokio::net::TcpStream, Vec<u32>)> = Vec::new();
